@@ -141,6 +141,7 @@ fn check_history(rep: &Report, cfg: &WCfg, res: &[Vec<Res>], events: &[ragc_core
             }
             "q.closed" => closed = true,
             "q.refuse" => if !closed { rep.violation("C06:refused_while_open", "push refused although the queue is open", det("")); },
+            "q.try_none" => if !model.is_empty() { rep.violation("C06:pull_none_with_items", "try_pull reported an empty queue while items are queued", det(&format!("{} items queued", model.len()))); },
             "q.end" => if !closed || !model.is_empty() { rep.violation("C06:pull_none_with_items", "pull reported end-of-stream while open or non-empty", det("")); },
             _ => {}
         }
